@@ -241,15 +241,48 @@ mod verif_kani_salsa20 {
         c.keystream_pos = 0xC0FFEE;
     }
 
-    // ===== bounded: apply_keystream against absolute-position keystream
-    fn spec_keystream_byte(state0: [u32; 16], pos: usize) -> u8 {
-        // state0 = state whose block is block number 0 of the stream
-        let mut s = state0;
-        let mut blk = pos / 64;
-        while blk > 0 {
-            s = spec_counter_inc(s);
-            blk -= 1;
+    // ===== apply_keystream, modular over generate_keystream (replaced by a marker refill)
+    fn stub_refill_marker(c: &mut Salsa20Cipher) {
+        let mut i = 0;
+        while i < 64 {
+            c.keystream[i] = c.keystream[i].wrapping_add(1);
+            i += 1;
         }
-        spec_salsa20_block(s)[pos % 64]
+        c.state[8] = c.state[8].wrapping_add(1);
+        c.keystream_pos = 0;
+    }
+
+    /// apply_keystream: byte i of the data is XORed with the keystream byte at the current position,
+    /// the position advances by one per byte, and exactly when the 64-byte block is exhausted the next
+    /// block is generated BEFORE the next byte is used (all keystreams, all positions 0..=64, 3 data
+    /// bytes - enough to cross the block boundary at every offset)
+    #[kani::proof]
+    #[kani::unwind(66)]
+    #[kani::stub(Salsa20Cipher::generate_keystream, stub_refill_marker)]
+    fn apply_keystream_xor_and_refill() {
+        let ks: [u8; 64] = kani::any();
+        let pos: usize = kani::any();
+        kani::assume(pos <= 64);
+        let mut c = Salsa20Cipher { state: [0; 16], keystream: ks, keystream_pos: pos };
+        let d0: [u8; 3] = kani::any();
+        let mut d = d0;
+        c.apply_keystream(&mut d);
+        let mut p = pos;
+        let mut refills = 0u32;
+        let mut i = 0;
+        while i < 3 {
+            if p >= 64 {
+                p = 0;
+                refills += 1;
+            }
+            let k = ks[p].wrapping_add(refills as u8);
+            assert!(d[i] == d0[i] ^ k, "data byte XOR keystream byte at the running position");
+            p += 1;
+            i += 1;
+        }
+        assert!(c.keystream_pos == p && c.state[8] == refills, "position advanced; one refill per exhausted block");
+        kani::cover!(pos == 63);
+        kani::cover!(pos == 64);
+        kani::cover!(pos == 0);
     }
 }
